@@ -407,6 +407,8 @@ def run_schedule(sched):
         first = {}
         by_tokens = {}
         for i, p in enumerate(_payloads(sched)):
+            if i in never:
+                continue  # a request that was never made is not an arrival of the trace
             first.setdefault(tuple(toks[i]), i)
             by_tokens.setdefault(tuple(toks[i]), p)
         dl = []
